@@ -1096,8 +1096,9 @@ func (p *Parser[V]) parseUnary(tokenizer *Tokenizer, constants Identifiers[V]) (
 			var inner AST
 			var err error
 			if un.opPos >= 0 {
-				// the unary is also an operator ("-")
-				inner, err = p.parseOp(tokenizer, un.opPos+1, constants)
+				// the unary is also an operator ("-"): the operand is built from
+				// the operators of higher priority, if there are any
+				inner, err = p.nextParserCall(un.opPos)(tokenizer, constants)
 			} else {
 				inner, err = p.parseNonOperator(tokenizer, constants)
 			}
